@@ -63,9 +63,37 @@ class SmoothSDE(nn.Module):
         return torch.sin(y @ self.Wg + t).reshape(B, self.d, self.m) * self.sg + 0.2 * t
 
 
+class SharedSDE(SmoothSDE):
+    """the same kind of SDE written the way latent-SDE code often is: ONE hidden layer feeds drift and diffusion, and the documented
+    combined method `f_and_g` evaluates it once - so the two outputs share an autograd sub-graph with saved tensors.  `f` and `g`
+    alone describe the same functions (the prescription is computed from them)."""
+
+    def _hid(self, t, y):
+        return torch.tanh(y @ self.W + self.b)
+
+    def _f_of(self, t, y, hid):
+        return hid * self.c + torch.sin(t + 0.3) * 0.4 * y
+
+    def _g_of(self, t, y, hid):
+        base = SmoothSDE.g(self, t, y)
+        scale = 1.0 + 0.1 * hid
+        return base * (scale if base.dim() == 2 else scale.unsqueeze(-1))
+
+    def f(self, t, y):
+        return self._f_of(t, y, self._hid(t, y))
+
+    def g(self, t, y):
+        return self._g_of(t, y, self._hid(t, y))
+
+    def f_and_g(self, t, y):
+        hid = self._hid(t, y)
+        return self._f_of(t, y, hid), self._g_of(t, y, hid)
+
+
 def make_case(sde_type, noise, d, m, batch, seed):
     m_eff = d if noise == 'diagonal' else (1 if noise == 'scalar' else m)
-    sde = SmoothSDE(sde_type, noise, d, m_eff, seed)
+    shared = noise != 'additive' and seed % 2 == 0
+    sde = (SharedSDE if shared else SmoothSDE)(sde_type, noise, d, m_eff, seed)
     params = list(sde.parameters())
     gen = torch.Generator().manual_seed(seed + 1)
     rn = lambda *s: torch.randn(tuple(s), generator=gen, dtype=torch.float64)
